@@ -87,6 +87,14 @@ SCHEMA_LAYOUTS = [
                   'x/t.xml': _sch(_T('ta')), 'r.xml': _sch(_K('kr')),
                   't.xml': _sch(_T('tdecoy')), 'x/y/r.xml': _sch(_K('kdecoy'))},
      [['km', 'kr', 'kt'], ['ta']]),
+    # a fragment identifier on ANY of several bases (also not the last one) is refused
+    ('a/main.xml', {'a/main.xml': _sch(_K('kt'), extends='b1.xml#types b2.xml'),
+                    'a/b1.xml': _sch(_K('k1')), 'a/b2.xml': _sch(_K('k2'))}, 'REJECT'),
+    ('a/main.xml', {'a/main.xml': _sch(_K('kt'), extends='b1.xml b2.xml#x b3.xml'),
+                    'a/b1.xml': _sch(_K('k1')), 'a/b2.xml': _sch(_K('k2')), 'a/b3.xml': _sch(_K('k3'))}, 'REJECT'),
+    ('a/main.xml', {'a/main.xml': _sch(_K('kt'), extends='b1.xml b2.xml'),
+                    'a/b1.xml': _sch(_K('k1')), 'a/b2.xml': _sch('<import src="t.xml#frag"/>' + _K('k2')),
+                    'a/t.xml': _sch(_T('ta'))}, 'REJECT'),
     ('a/main.xml', {'a/main.xml': _sch('<import src="types.xml"/>' + _K('kt'), extends='../b/base.xml'),
                     'a/types.xml': _sch(_T('ta')),
                     'b/base.xml': _sch('<import src="types.xml"/>' + _K('kb')),
@@ -460,7 +468,10 @@ class C18(Harness):
         if fn == 'include':
             return self._include_expect(unit, s)
         if fn == 'schemaref':
-            return ('ok', SCHEMA_LAYOUTS[unit['layout']][2])
+            want = SCHEMA_LAYOUTS[unit['layout']][2]
+            if want == 'REJECT':
+                return ('reject', 'SchemaError')
+            return ('ok', want)
         if fn == 'tree':
             return ('ok', TREE_CASES[unit['case']][2])
         if fn == 'urlnormalize':
